@@ -19,6 +19,7 @@ var scripts = map[string]func(rn *Runner){
 	"longstale":   scriptLongStale,
 	"notifyblock": scriptNotifyBlock,
 	"cfgquorum":   scriptCfgQuorum,
+	"staletn":     scriptStaleTN,
 }
 
 func (rn *Runner) el() time.Duration {
@@ -609,5 +610,49 @@ func scriptNotifyBlock(rn *Runner) {
 		time.Sleep(rn.el() / 2)
 		c.Net.Heal() // the old leader can vote again
 		time.Sleep(time.Duration(rn.Sc.P.NotifyDelayMs)*time.Millisecond + 3*rn.el())
+	}
+}
+
+// scriptStaleTN: TimeoutNow carries no term, so a copy that the network delivers late is obeyed by
+// whoever receives it, in whatever state: the transfer target that has meanwhile won its election
+// leaves runLeader as a *candidate* (the one way a leader loses leadership without becoming a
+// follower first), a follower campaigns with the transfer flag although its leader is healthy.
+func scriptStaleTN(rn *Runner) {
+	c := rn.C
+	hb := time.Duration(rn.Sc.P.HeartbeatMs) * time.Millisecond
+	for round := 0; round < 5; round++ {
+		L := rn.waitLeader(nil, 30)
+		if L == nil {
+			return
+		}
+		time.Sleep(rn.el())
+		if L = rn.waitLeader(nil, 30); L == nil {
+			return
+		}
+		var voters []*Node
+		for _, nd := range c.Nodes {
+			if nd != L && nd.Cur() != nil && c.IsVoterNow(L, nd) {
+				voters = append(voters, nd)
+			}
+		}
+		if len(voters) == 0 {
+			return
+		}
+		T := voters[rn.rng.Intn(len(voters))]
+		// the copy arrives while T is still campaigning, just after it has won, or long after
+		d := pick(rn.rng, time.Millisecond, 3*time.Millisecond, hb/4, hb, 2*rn.el())
+		c.Net.SetKindDup("tn", d)
+		rn.note("transfer %s -> %s, TimeoutNow repeated after %v", L.name, T.name, d)
+		rn.applyBurst(L, rn.rng.Intn(3), "tn")
+		c.Transfer(13, L, T)
+		time.Sleep(d + hb/2)
+		for _, nd := range c.Nodes {
+			c.Sample(nd)
+		}
+		c.Net.SetKindDup("tn", 0)
+		time.Sleep(3 * rn.el())
+		for _, nd := range c.Nodes {
+			c.Reading(nd, "quiet")
+		}
 	}
 }
